@@ -40,6 +40,18 @@ def insertClone (g : Graph) (dep consumer : Nat) : Graph × Nat :=
     [⟨dep, c, .shared⟩, ⟨c, consumer, .move⟩]
   (⟨nodes, edges⟩, c)
 
+/-- ↔ the cloning loop of `multiple_consumers` for one contended, cloneable value `n`: for each
+    competing set, every consumer that has not received a clone yet, except the last one, gets one. -/
+def mcCloneStep (n : Nat) (acc : Graph × List Nat) (set : List Nat) : Graph × List Nat :=
+  let ids := set.filter (fun c => !acc.2.contains c)
+  if ids.length ≤ 1 then acc
+  else
+    let others := ids.dropLast
+    (others.foldl (fun g c => (insertClone g n c).1) acc.1, acc.2 ++ others)
+
+def mcCloneSets (g : Graph) (n : Nat) (sets : List (List Nat)) : Graph × List Nat :=
+  sets.foldl (mcCloneStep n) (g, [])
+
 /-- one node of `multiple_consumers`; `sinks` are the sinks of the graph the pass started from. -/
 def mcNode (sinks : List Nat) (st : Graph × List Diag) (n : Nat) : Graph × List Diag :=
   let g := st.1
@@ -53,13 +65,7 @@ def mcNode (sinks : List Nat) (st : Graph × List Diag) (n : Nat) : Graph × Lis
     if sets.isEmpty then st
     else if !(g.node n).cloneable then (g, st.2 ++ sets.map (fun _ => ⟨.multipleConsumers, n⟩))
     else
-      let r := sets.foldl (fun (acc : Graph × List Nat) set =>
-        let ids := set.filter (fun c => !acc.2.contains c)
-        if ids.length ≤ 1 then acc
-        else
-          let others := ids.dropLast
-          (others.foldl (fun g c => (insertClone g n c).1) acc.1, acc.2 ++ others)) (g, [])
-      (r.1, st.2)
+      ((mcCloneSets g n sets).1, st.2)
 
 /-- ↔ `multiple_consumers`. -/
 def multipleConsumers (g : Graph) : Graph × List Diag :=
